@@ -8,7 +8,15 @@ Functions under contract (real source):
 Consequences argued from these obligations (not solver steps): one row per distinct key (keys strictly increasing under cmp, groups tile the
 rows); group sizes add up to len(d) (tiling); unlist() - the concatenation of the groups in key order - lists the rows in the order of the
 sorted (key, row number) pairs, which is the order dictable.sort computes from the same sort call, i.e. the stable sort.
-Bounded only (rac/C11.py): the constructors `type(self)(xs, by)`, update, concat in unlist/ungroup, pivot (xyz) and unpivot.
+  dictable.xyz       (pivot) the region from `xys, ids = self._listby(xykeys)` to the end of the double loop that fills the matrix `res`: for every (x, y) group
+                     its list of z values (row order; aggregated when agg is given) sits in row = its x group (rs._listby(x)), column = its y group
+                     (rs._listby((y_,)) through j2k), every other cell is None, nothing raises.  The three _listby calls by their contract (C02) plus the
+                     sort contract's permutation facts; interface lemmas about the groupings (every group listed in exactly one y group, groups of one
+                     x group lie in different y groups - from the cmp laws and the component-wise comparison of key tuples) are obligations of their own.
+                     Assumed (their bodies are bounded only): type(self)(xys, x + (y_,)) is the table of the group keys; len(rs[[y_]].listby(y_)) is the
+                     number of y groups.
+Bounded only (rac/C11.py): the constructors `type(self)(xs, by)` / `type(self)(res, labels)`, update, concat in unlist/ungroup, the column labels and final
+assembly of pivot, unpivot.
 """
 import ast
 import z3
@@ -498,7 +506,10 @@ def build(ctx):
         comp = inner[0]
         gen = comp.generators[0]
         kname = ast.unparse(comp.elt.value.slice)
-        yname = ast.unparse(gen.iter)
+        ynames = [x.id for x in ast.walk(gen.iter) if isinstance(x, ast.Name)]
+        if len(ynames) != 1:
+            raise SelectorError('%s: the cell comprehension does not iterate one group list' % fname)
+        yname = ynames[0]
         n = Int('N')
         t = fresh_table('self')
         y = fresh_list(INT, 'group')
